@@ -58,4 +58,5 @@ def run(tier, seed):
                 forced.pause_after_stop_still_holds(first_pause=True), forced.rollout_redeploy_grants_the_drain_timeout(),
                 forced.rollout_redeploy_grants_the_drain_timeout(deploy_timeout=5 * SEC, drain_timeout=SEC),
                 forced.stop_without_message_fails_the_held_requests(), forced.drain_outlasts_the_target_timeout(),
-                forced.drain_outlasts_the_target_timeout(stop=True)], extra=race_stress)
+                forced.drain_outlasts_the_target_timeout(stop=True), forced.redeploy_of_the_same_target_names(),
+                forced.redeploy_of_the_same_target_names(upgraded=True)], extra=race_stress)
